@@ -228,7 +228,16 @@ func (s *StatsCtx) handlePutStatsConfig(w http.ResponseWriter, r *http.Request) 
 
 // handleStatsReset is the handler for the POST /control/stats_reset HTTP API.
 func (s *StatsCtx) handleStatsReset(w http.ResponseWriter, r *http.Request) {
-	err := s.clear()
+	var err error
+	func() {
+		// Like the legacy interval handler, hold confMu for the whole clear so
+		// that the hourly flush, which also holds it, cannot put the unit
+		// being cleared into the re-created database.
+		s.confMu.Lock()
+		defer s.confMu.Unlock()
+
+		err = s.clear()
+	}()
 	if err != nil {
 		aghhttp.ErrorAndLog(
 			r.Context(),
